@@ -37,6 +37,16 @@ CHECKS = {
               "Denials only at accesses pertaining to the process; a lone ENOENT on a live process is not injected."),
         design="DESIGN.md section 3 C03",
     ),
+    "C04": dict(
+        level="exploration",
+        technique="property-based testing (Hypothesis) of op-list histories: process-table changes interleaved with lazily consumed / abandoned / closed iterators, cache_clear and is_running -> reference model of the cache statement",
+        text=("Generated histories interleave spawn/exit/reap/recycle/thread events with iterators that are created, advanced a few items, finished, closed or garbage-collected at any later "
+              "point, complete passes with several attrs choices, cache_clear(), is_running() on cached objects, and pid_exists()/pids() over listed PIDs, TIDs, absent, negative and huge "
+              "numbers. A reference model checks order, membership, completeness, object identity across clean passes, fresh objects after absence / clear / reuse detection, info keys and "
+              "convergence. Two recorded known findings are excluded by construction and re-checked from their replay files. Search, not proof; no thread-level schedules."),
+        note=("Trusted: vlib/simk.py, vlib/history.py. A listed PID vanishing before its turn may be yielded or skipped; identity asserted only between passes during which no other iterator advanced."),
+        design="DESIGN.md section 3 C04",
+    ),
     "C05": dict(
         level="exploration",
         technique="property-based testing (Hypothesis) + exhaustive enumeration of small parent maps: generated process tables -> reference graph model; termination as an OS-access bound",
